@@ -1187,7 +1187,7 @@ func TestVerifReplayCandidate(t *testing.T) {
 		}
 	}
 	if !done {
-		if strings.Contains(out, "panic: test timed out") {
+		if strings.Contains(out, "panic: test timed out") && (strings.HasPrefix(ob.Kind, "safe") || ob.Kind == "dec") {
 			att["verdict"] = "reproduced"
 			att["observed"] = "the real function did not return within 60 s on this input"
 			return att
@@ -1197,8 +1197,13 @@ func TestVerifReplayCandidate(t *testing.T) {
 		return att
 	}
 	if panicked != "" {
-		att["verdict"] = "reproduced"
-		att["observed"] = "the real function panics on this input (which satisfies its precondition): " + panicked
+		if strings.HasPrefix(ob.Kind, "safe") {
+			att["verdict"] = "reproduced"
+			att["observed"] = "the real function panics on this input (which satisfies its precondition): " + panicked
+			return att
+		}
+		// a panic is a failing input for a safety obligation only; for any other kind it is recorded, not counted
+		att["verdict"] = "the real function panics on this candidate before the failed obligation can be observed: " + panicked
 		return att
 	}
 	if !strings.HasPrefix(ob.Kind, "post") {
